@@ -176,13 +176,15 @@ struct Worker {
     std::deque<std::string> history;       // serialised cases executed so far in this process (most recent last, bounded)
     bool stop_after_history_failure = false;
     int zy_to = -1, zy_from = -1;          // pipes to the pristine confirmation process
-    char crash_path[512] = {0}; char crash_tail[256] = {0};
+    char crash_path[512] = {0}; char crash_tail[256] = {0}; char timeout_tail[256] = {0};
+    unsigned case_timeout_s = 0;           // per-case watchdog (C14: "each API call terminates"); 0 = off
     std::string base() const { return args.outdir + "/" + args.id + "-" + args.variant + "-w" + std::to_string(args.worker); }
 };
 inline Worker& W() { static Worker w; return w; }
 
 inline void set_current(const Case& c) {
     std::string s = c.str(); Worker& w = W();
+    if (w.case_timeout_s) alarm(w.case_timeout_s);   // re-armed for every case; a case that does not finish is dumped by on_alarm
     if (!w.in_child) { w.history.push_back(s); if (w.history.size() > 65) w.history.pop_front(); }
     w.cur_len = s.size() < sizeof(w.cur) ? s.size() : sizeof(w.cur);
     memcpy(w.cur, s.data(), w.cur_len);
@@ -213,6 +215,12 @@ inline void crash_dump() {
     w.ev.write(w.base());
 }
 inline void on_signal(int sig) { crash_dump(); signal(sig, SIG_DFL); raise(sig); }
+inline void on_alarm(int) { // the current case did not return in time: dump it like a crash (no allocation) and leave
+    Worker& w = W(); if (w.in_child) _exit(79);
+    int fd = open(w.crash_path, O_WRONLY | O_CREAT | O_TRUNC, 0644);
+    if (fd >= 0) { ssize_t r = write(fd, w.cur, w.cur_len); (void)r; r = write(fd, w.timeout_tail, strlen(w.timeout_tail)); (void)r; close(fd); }
+    _exit(79);
+}
 inline void install_crash_handlers() {
     if (__sanitizer_set_death_callback) __sanitizer_set_death_callback(crash_dump);
     signal(SIGABRT, on_signal); signal(SIGSEGV, on_signal); signal(SIGBUS, on_signal); signal(SIGFPE, on_signal); signal(SIGILL, on_signal);
@@ -297,7 +305,8 @@ inline int worker_main(int argc, char** argv, const char* id, const Hooks& h) {
     setvbuf(stdout, nullptr, _IOLBF, 0);
     snprintf(w.crash_path, sizeof w.crash_path, "%s.crash.case", w.base().c_str());
     snprintf(w.crash_tail, sizeof w.crash_tail, "property=%s\nvariant=%s\nmessage=crash (sanitizer report, abort or signal) while executing this case\n", w.args.id.c_str(), w.args.variant.c_str());
-    install_crash_handlers();
+    snprintf(w.timeout_tail, sizeof w.timeout_tail, "property=%s\nvariant=%s\nmessage=the call under test did not return within the per-case time limit (normal duration: microseconds)\n", w.args.id.c_str(), w.args.variant.c_str());
+    install_crash_handlers(); signal(SIGALRM, on_alarm);
     if (!w.args.replay.empty()) {
         std::string text = read_file(w.args.replay);
         if (Case::parse(text).kv.empty()) { fprintf(stderr, "cannot read replay file %s\n", w.args.replay.c_str()); return 2; }
